@@ -136,6 +136,45 @@ ssize_t writev(int fd, const struct iovec* iov, int cnt) {
 	return realWritev()(fd, iov, cnt);
 }
 
+// positional and vectored variants: same fault kinds, so a library that moves its I/O from iostreams to raw descriptors
+// meets the same environment
+ssize_t pread64(int fd, void* buf, size_t n, off64_t off) {
+	typedef ssize_t (*fn)(int, void*, size_t, off64_t);
+	static fn f = real<fn>("pread64");
+	if (!applies(fd)) return f(fd, buf, n, off);
+	bool e;
+	if (preCall(e)) return -1;
+	if (g_fault.shortRead && n > g_fault.shortRead) { n = g_fault.shortRead; ++g_fault.firedShortRead; }
+	return f(fd, buf, n, off);
+}
+ssize_t pread(int fd, void* buf, size_t n, off_t off) { return pread64(fd, buf, n, off); }
+ssize_t pwrite64(int fd, const void* buf, size_t n, off64_t off) {
+	typedef ssize_t (*fn)(int, const void*, size_t, off64_t);
+	static fn f = real<fn>("pwrite64");
+	if (!applies(fd)) return f(fd, buf, n, off);
+	bool e;
+	if (preCall(e)) return -1;
+	if (g_fault.shortWrite && n > g_fault.shortWrite) { n = g_fault.shortWrite; ++g_fault.firedShortWrite; }
+	return f(fd, buf, n, off);
+}
+ssize_t pwrite(int fd, const void* buf, size_t n, off_t off) { return pwrite64(fd, buf, n, off); }
+ssize_t readv(int fd, const struct iovec* iov, int cnt) {
+	typedef ssize_t (*fn)(int, const struct iovec*, int);
+	static fn f = real<fn>("readv");
+	if (!applies(fd)) return f(fd, iov, cnt);
+	bool e;
+	if (preCall(e)) return -1;
+	if (g_fault.shortRead && cnt > 0) {
+		for (int i = 0; i < cnt; ++i) {
+			if (iov[i].iov_len == 0) continue;
+			size_t n = iov[i].iov_len > g_fault.shortRead ? g_fault.shortRead : iov[i].iov_len;
+			++g_fault.firedShortRead;
+			return realRead()(fd, iov[i].iov_base, n);
+		}
+	}
+	return f(fd, iov, cnt);
+}
+
 struct dirent* readdir(DIR* d) {
 	if (!g_fault.armed) return realReaddir()(d);
 	auto& m = dirStates();
